@@ -5,13 +5,18 @@ import stimcore as sc
 PROP = 'C09'
 REQUIRES = ['Stim.Model', 'Stim.Spec']
 RULE = ('finite generators (gate, envelope with windows cosine-squared/hann/hamming/blackman/bartlett/cos2 class, rise None/0/max, '
-        'fixed, repeat, envelope over SAM, gate over fixed, too-long rise, too-long repeat) at 5 rates incl. non-integer, with on-grid and '
-        'off-grid start/duration/rise times; draw histories that cross every boundary and run past the end, with n_samples / '
-        'n_samples_remaining / is_complete queried before and after every draw. Non-trivial: the history draws past the end or the '
-        'stimulus has a non-zero start or a ramp. Distinct = distinct (config, rate, history).')
+        'fixed incl. click/chirp/band-limited click/wav (str and Path, three normalisations) and int16/float32/read-only arrays, repeat '
+        '(on/off-grid period and delay, n = 0, infinite input), envelope over SAM, gate over fixed/bool/int tokens, SAM / square-wave '
+        'envelope / notch over a fixed waveform, too-long rise, too-long repeat, zero and one-sample durations, rounding ties x.5, int 0 '
+        'times, the constructor default start, pointwise transform, very long stimuli) at 5 rates incl. non-integer, with on-grid and '
+        'off-grid start/duration/rise times; draw histories that cross every boundary (and one below / one above it) and run past the '
+        'end, with NumPy int and (where the stimulus reports them) float draw counts, zero-sample draws, get_samples_remaining(), the '
+        'caller overwriting the arrays it receives, and n_samples / n_samples_remaining / is_complete / get_duration queried before '
+        'and after every draw; stim.envelope / cos2envelope called directly for the whole stimulus (samples="auto") and beyond. '
+        'Non-trivial: the history draws past the end or the stimulus has a non-zero start or a ramp. '
+        'Distinct = distinct (config, rate, history).')
 TRUSTED = ['harness/stimcore.py (see C01)', 'scipy.signal.windows.* and cos2ramp give the ramp values (oracle for the window shape)']
-ASSUMPTIONS = ['zero-sample draws are not sent through stateful scipy filters (lfilter on an empty array returns a garbage state); the property quantifies over chunk sizes >= 1',
-               'sample counts are int(round(t*fs)) as the code computes them; the harness evaluates the same float expression',
+ASSUMPTIONS = ['sample counts are int(round(t*fs)) as the code computes them; the harness evaluates the same float expression',
                'range [0,1] of the cosine-squared ramp is proved over R in Props/C09.v; for scipy windows it is checked numerically']
 FS = [1000.0, 25000.0, 44100.0, 48828.125, 195312.5]
 WINDOWS = ['cosine-squared', 'cos2class', 'hann', 'hamming', 'blackman', 'bartlett']
@@ -39,6 +44,57 @@ def _configs(fs, rng, quick):
             {'t': 'env', 'window': 'hann', 'start': 2, 'dur': 20, 'rise': 3,
              'in': {'t': 'sam', 'depth': 1.0, 'fm': fs / 9.0, 'delay': 5 / fs, 'in': one}},
             {'t': 'notch', 'f': fs / 8.0, 'q': 1.33, 'in': {'t': 'gate', 'start': 2, 'dur': 8, 'in': tone}}]
+    # ---- coverage-audit additions -------------------------------------------------------------------------
+    fx9 = {'t': 'fixed', 'n': 9}
+    out += [
+        # shortest durations, zero duration after a non-zero start, rounding ties (x.5 samples), int 0 times,
+        # the constructor's default start_time, a pointwise transform
+        {'t': 'env', 'window': 'cosine-squared', 'start': 3, 'dur': 0, 'rise': None, 'in': one},
+        {'t': 'env', 'window': 'hann', 'start': 3, 'dur': 0, 'rise': 0, 'int0': True, 'in': tone},
+        {'t': 'env', 'window': 'hann', 'start': 2, 'dur': 1, 'rise': None, 'in': one},
+        {'t': 'env', 'window': 'hamming', 'start': 0, 'dur': 1, 'rise': 0, 'int0': True, 'in': one},
+        {'t': 'env', 'window': 'cosine-squared', 'start': 0, 'dur': 2, 'rise': 1, 'defstart': True, 'in': one},
+        {'t': 'env', 'window': 'bartlett', 'start': 0, 'dur': 3, 'rise': None, 'defstart': True, 'in': one},
+        {'t': 'env', 'window': 'cos2class', 'start': 0, 'dur': 12, 'rise': 3, 'defstart': True, 'in': tone},
+        {'t': 'env', 'window': 'cos2class', 'start': 2.5, 'dur': 8.5, 'rise': 1.5, 'in': one},
+        {'t': 'env', 'window': 'hann', 'start': 3.5, 'dur': 7.5, 'rise': 2.5, 'in': one},
+        {'t': 'env', 'window': 'hann', 'start': 3, 'dur': 14, 'rise': 4, 'transform': 'sq', 'in': one},
+        {'t': 'env', 'window': 'blackman', 'start': 2.4, 'dur': 11.3, 'rise': None, 'transform': 'sq', 'in': tone},
+        {'t': 'env', 'window': 'cosine-squared', 'start': 2, 'dur': 9, 'rise': 3, 'in': {'t': 'bbnoise', 'seed': 0, 'level': 1.0}},
+        {'t': 'gate', 'start': 0, 'dur': 7, 'int0': True, 'in': tone},
+        {'t': 'gate', 'start': 3, 'dur': 0, 'in': tone},
+        {'t': 'gate', 'start': 2.5, 'dur': 6.5, 'in': one},
+        {'t': 'gate', 'start': 2, 'dur': 5, 'in': {'t': 'silence', 'fill': True}},
+        {'t': 'gate', 'start': 3, 'dur': 5, 'in': {'t': 'fixed', 'n': 11, 'dtype': 'int16'}},
+        {'t': 'gate', 'start': 1, 'dur': 12, 'in': {'t': 'fixed', 'n': 17, 'cls': 'wav'}},
+        {'t': 'gate', 'start': 2, 'dur': 9, 'in': {'t': 'square', 'level': 2.0, 'freq': fs / 4.0, 'duty': 0.5}},
+        # fixed waveforms: other dtypes, read-only, wav files (str and Path, the three normalisations)
+        {'t': 'fixed', 'n': 11, 'dtype': 'int16'},
+        {'t': 'fixed', 'n': 10, 'dtype': 'float32', 'ro': True},
+        {'t': 'fixed', 'n': 21, 'cls': 'wav'},
+        {'t': 'fixed', 'n': 17, 'cls': 'wav', 'norm': 'rms', 'path': True},
+        {'t': 'fixed', 'n': 19, 'cls': 'wav', 'norm': None},
+        {'t': 'fixed', 'n': 7, 'cls': 'click', 'pol': -1},
+        {'t': 'fixed', 'n': 18, 'cls': 'chirp', 'window': 'hann'},
+        # transforms of a fixed waveform (their remaining-sample count is the NumPy float of the fixed waveform)
+        {'t': 'sam', 'depth': 1, 'fm': fs / 7.0, 'delay': 5 / fs, 'direction': -1, 'in': {'t': 'fixed', 'n': 13}},
+        {'t': 'sqenv', 'depth': 1, 'fm': fs / 6.5, 'duty': 0.5, 'alpha': 0.25, 'in': {'t': 'fixed', 'n': 13}},
+        {'t': 'notch', 'f': fs / 8.0, 'q': 2, 'in': {'t': 'fixed', 'n': 13}},
+        # repeat: off-grid period / delay, no repetitions, one below the length limit, transform of a fixed waveform as
+        # input, an input without a finite duration (rejected)
+        {'t': 'repeat', 'n': 2, 'skip': 1, 'rate': fs / 12.4, 'delay': 2.6 / fs, 'in': {'t': 'fixed', 'n': 8}},
+        {'t': 'repeat', 'n': 0, 'skip': 0, 'rate': fs / 6.0, 'delay': 0, 'in': {'t': 'fixed', 'n': 4}},
+        {'t': 'repeat', 'n': 0, 'skip': 2, 'rate': fs / 6.0, 'delay': 0, 'in': {'t': 'fixed', 'n': 4}},
+        {'t': 'repeat', 'n': 2, 'skip': 0, 'rate': fs / 10.0, 'delay': 0.0, 'in': fx9},
+        {'t': 'repeat', 'n': 2, 'skip': 1, 'rate': fs / 11.0, 'delay': 1 / fs,
+         'in': {'t': 'sam', 'depth': 1.0, 'fm': fs / 7.0, 'delay': 2 / fs, 'in': fx9}},
+        {'t': 'repeat', 'n': 3, 'skip': 0, 'rate': max(int(fs // 12), 1), 'delay': 0,
+         'in': {'t': 'gate', 'start': 1.4, 'dur': 6.4, 'in': tone}},
+        {'t': 'repeat', 'n': 2, 'skip': 0, 'rate': fs / 10.0, 'delay': 0.0, 'in': tone},
+        # long stimuli: only the bookkeeping and a few samples are looked at
+        {'t': 'gate', 'start': 1000003.4, 'dur': 2000000.5, 'huge': True, 'in': tone},
+        {'t': 'env', 'window': 'hann', 'start': 123456.5, 'dur': 7654321.3, 'rise': 1000.2, 'huge': True, 'in': one},
+    ]
     if not quick:
         for _ in range(60):
             dur = rng.uniform(0, 30)
@@ -51,6 +107,11 @@ def cases(tier, rng):
     quick = tier == 'quick'
     for fs in FS:
         for cfg in _configs(fs, rng, quick):
+            if cfg.get('huge'):
+                for ops in ([['query'], ['next', 3], ['query'], ['next', 2, 'np64'], ['query'], ['reset'], ['query']],
+                            [['next', 1, 'np32+scr'], ['query'], ['next', 0], ['query']]):
+                    yield {'fs': fs, 'cfg': cfg, 'ops': ops}
+                continue
             B = sorted(sc.boundaries(cfg, fs))
             total = max(B)
             hist = []
@@ -61,6 +122,14 @@ def cases(tier, rng):
                 if b > pos:
                     ops += [['next', b - pos], ['query']]
                     pos = b
+            hist.append(ops)
+            # the same walk through one below / at / one above every boundary (every comparison of the bookkeeping
+            # at ==, -1, +1), with NumPy-typed counts and the caller writing into what it received
+            pos = 0
+            ops = [['query']]
+            for b in sorted({b + e for b in B for e in (-1, 0, 1) if b + e > 0}):
+                ops += [['next', b - pos, rng.choice(['np64', 'np32', '']) + '+scr'], ['query']]
+                pos = b
             hist.append(ops)
             for _ in range(2 if quick else 12):
                 ops = [['query']]
@@ -73,30 +142,87 @@ def cases(tier, rng):
             # get_samples_remaining() (float-typed count for fixed waveforms), then draws past the end, reset, again
             hist.append([['next', min(2, total)], ['rest'], ['query'], ['next', 3], ['query'], ['rest'], ['next', 2],
                          ['reset'], ['rest'], ['next', 4], ['query']])
+            hist.append(sc.kinds_history(cfg, fs, rng))
+            if sc.accepts_float(cfg):
+                # float-typed counts as the stimulus reports them itself, one short of the end, to the end, past it
+                hist.append([['next', max(total - 1, 0), 'npf+scr'], ['query'], ['next', 1, 'pyf+scr'], ['query'],
+                             ['next', 2, 'npf'], ['query'], ['reset'], ['next', total + 2, 'pyf'], ['query']])
             for ops in hist:
-                if _has_filter(cfg):
-                    # the property quantifies over chunk sizes >= 1; scipy's lfilter returns a garbage final
-                    # state for an EMPTY input, so a zero-sample draw through a stateful filter is excluded
-                    ops = [o for o in ops if not (o[0] == 'next' and o[1] == 0)]
-                    if any(o[0] == 'rest' for o in ops):
-                        continue        # a second get_samples_remaining() would be a zero-sample draw
                 yield {'fs': fs, 'cfg': cfg, 'ops': ops}
+    # the envelope functions called directly for the whole stimulus (samples='auto') and for more than the whole
+    for fs in FS:
+        for i in range(60 if quick else 1500):
+            grid = i % 2 == 0
+            start = rng.randint(0, 10) if grid else rng.choice([rng.uniform(0, 10), rng.randint(0, 9) + 0.5])
+            dur = rng.randint(0, 24) if grid else rng.choice([rng.uniform(0, 24), rng.randint(0, 23) + 0.5])
+            rise = rng.choice([None, 0, rng.randint(0, int(dur) // 2 + 1) if grid else rng.uniform(0, dur / 1.9)])
+            call = rng.choice(['pos', 'kw', 'cos2'])
+            c = {'k': 'envfn', 'fs': fs, 'window': 'cosine-squared' if call == 'cos2' else rng.choice(WINDOWS[:1] + WINDOWS[2:]),
+                 'start': start, 'dur': dur, 'rise': rise, 'call': call, 'extra': rng.choice(['auto', 'auto', 0, 1, rng.randint(2, 30)])}
+            if rng.random() < 0.25:
+                c['int0'] = True
+            if rng.random() < 0.25:
+                c['scr'] = True
+            yield c
 
 
-def _has_filter(cfg):
-    return cfg['t'] == 'notch' or ('in' in cfg and _has_filter(cfg['in']))
+def _envfn_params(case):
+    fs = case['fs']
+    elb, dur = sc.eff(case['start'], fs), sc.eff(case['dur'], fs)
+    rise = int(np.floor(dur / 2)) if case['rise'] is None else sc.eff(case['rise'], fs)
+    n = elb + dur if case['extra'] == 'auto' else elb + dur + case['extra']
+    return elb, dur, rise, n
+
+
+def _envfn_call(case):
+    from psiaudio import stim
+    fs = case['fs']
+    cfg = {'start': case['start'], 'dur': case['dur'], 'rise': case['rise'], 'int0': case.get('int0')}
+    start, dur, rise = (sc.tsec(cfg, k, fs) for k in ('start', 'dur', 'rise'))
+    kw = {} if case['extra'] == 'auto' else {'samples': _envfn_params(case)[3]}
+    if case['call'] == 'cos2':
+        return stim.cos2envelope(fs, dur, rise, start_time=start, **kw)
+    if case['call'] == 'kw':
+        return stim.envelope(window=case['window'], fs=fs, duration=dur, rise_time=rise, start_time=start, **kw)
+    return stim.envelope(case['window'], fs, dur, rise, 0, start, **kw)
 
 
 def impl(case):
+    if case.get('k') == 'envfn':
+        try:
+            e = _envfn_call(case)
+            res = ['ok', [float(v) for v in e]]
+            if case.get('scr'):
+                sc.scribble(e)          # the caller tries to write into the (memoised) result, then asks again
+                res.append([float(v) for v in _envfn_call(case)])
+            return res
+        except ValueError:
+            return ['raise']
     return sc.run_impl(case['cfg'], case['fs'], case['ops'])
 
 
 def expr(case, res):
+    from vlib import zlit
+    if case.get('k') == 'envfn':
+        elb, dur, rise, n = _envfn_params(case)
+        return f"run_envelope {zlit(elb)} {zlit(dur)} {zlit(rise)} 0 {zlit(n)}"
     reg = sc.Registry(case['fs'])
     return f"run_gen {sc.coq_gen(case['cfg'], reg)} {sc.coq_ops(case['ops'])}"
 
 
 def agree(case, res, mo):
+    if case.get('k') == 'envfn':
+        if mo[0] == 2:
+            return None if res[0] == 'raise' else 'model raises ValueError, implementation returned an envelope'
+        if res[0] == 'raise':
+            return 'implementation raised ValueError, model returned an envelope'
+        factors = sc.parse_factors(mo[1:])
+        _, _, rise, _ = _envfn_params(case)
+        want = sc.frag_values(case['fs'], {'kind': 'ramp', 'window': case['window'], 'rise': rise}, factors)
+        for got in res[1:]:
+            if got != want:
+                return f'envelope values differ from the model recipes: {got} vs {want}'
+        return None
     reg = sc.Registry(case['fs'])
     sc.coq_gen(case['cfg'], reg)
     return sc.compare(case['cfg'], case['fs'], reg, case['ops'], res, mo)
@@ -116,21 +242,61 @@ def _total(cfg, fs):
 
 
 def nontrivial(case, res):
+    if case.get('k') == 'envfn':
+        return res[0] == 'ok' and len(res[1]) > 0
     tot = _total(case['cfg'], case['fs'])
-    drawn = sum(o[1] for o in case['ops'] if o[0] == 'next') + (10 ** 6 if any(o[0] == 'rest' for o in case['ops']) else 0)
+    drawn = sum(o[1] for o in case['ops'] if o[0] == 'next') + (10 ** 8 if any(o[0] == 'rest' for o in case['ops']) else 0)
     return tot is not None and (drawn > tot or case['cfg'].get('start', 0) > 0 or case['cfg'].get('rise', 0) not in (0,))
 
 
-def oracle(case, res):
+def _window(w, r, transform=None):
     from psiaudio import stim
     from scipy import signal
+    win = stim.cos2ramp(2 * r) if w in ('cosine-squared', 'cos2class') else getattr(signal.windows, w)(2 * r)
+    return sc.TRANSFORMS[transform](win) if transform else win
+
+
+def _shape(a, start, d, r, w, transform=None):
+    """a = the whole stimulus over the constant 1: zeros, first half of the window, ones, second half, zeros"""
+    tot = start + d
+    if np.any(a[:start] != 0):
+        return f'non-zero sample before the start ({start})'
+    if np.any(a[tot:] != 0):
+        return f'non-zero sample at or after the end ({tot}): index {tot + int(np.argmax(a[tot:] != 0))}'
+    win = _window(w, r, transform)
+    body = a[start:tot]
+    if not (np.array_equal(body[:r], win[:r]) and np.all(body[r:d - r] == 1.0) and np.array_equal(body[d - r:], win[r:])):
+        return 'envelope is not (first half of window, ones, second half of window)'
+    if w in ('cosine-squared', 'cos2class', 'hann', 'hamming', 'bartlett') and (body.min(initial=0) < 0 or body.max(initial=0) > 1):
+        return 'envelope leaves [0, 1]'
+    return None
+
+
+def _envfn_oracle(case, res):
+    elb, d, r, n = _envfn_params(case)
+    if res[0] == 'raise':
+        return None if d < 2 * r else 'envelope() raised ValueError although rise <= duration/2'
+    if d < 2 * r:
+        return 'a rise time longer than half the duration was not rejected'
+    if len(res) > 2 and res[2] != res[1]:
+        return 'the same envelope() call returned different values after the caller wrote into the first result'
+    a = np.asarray(res[1], dtype=float)
+    if len(a) != n:
+        return f'envelope() returned {len(a)} samples, expected {n} (round(start*fs)+round(duration*fs) = {elb + d})'
+    return _shape(a, elb, d, r, case['window'])
+
+
+def oracle(case, res):
+    if case.get('k') == 'envfn':
+        return _envfn_oracle(case, res)
     fs, cfg = case['fs'], case['cfg']
     if res and res[0][0] == 'ctor-raise':
         if cfg['t'] == 'repeat':
             per = int(round(fs / cfg['rate']))
             sd = int(round(fs * cfg['delay']))
-            if _total(cfg['in'], fs) > per - sd:
-                return None
+            tin = _total(cfg['in'], fs)
+            if tin is None or tin > per - sd:
+                return None         # no finite duration to repeat / waveform longer than the period
         return 'constructor raised ValueError for acceptable parameters'
     tot = _total(cfg, fs)
     top = cfg['t']
@@ -161,6 +327,9 @@ def oracle(case, res):
             stream += r_[1]
         elif o[0] == 'query' and tot is not None:
             ns, rem, comp = r_[1], r_[2], r_[3]
+            want_dur = sc.duration_expected(cfg, fs)
+            if len(r_) > 4 and r_[4] != want_dur:
+                return f'get_duration() = {r_[4]!r}, expected {want_dur!r}'
             if top in ('gate', 'env', 'fixed', 'repeat') and ns != tot:
                 return f'n_samples() = {ns}, expected {tot}'
             if rem != max(tot - drawn, 0):
@@ -180,19 +349,16 @@ def oracle(case, res):
     if top == 'env' and cfg['in'] == {'t': 'silence', 'fill': 1} and len(a) >= tot:
         d = tot - start
         r = d // 2 if cfg['rise'] is None else int(round((cfg['rise'] / fs) * fs))
-        w = cfg['window']
-        win = stim.cos2ramp(2 * r) if w in ('cosine-squared', 'cos2class') else getattr(signal.windows, w)(2 * r)
-        body = a[start:tot]
-        if not (np.array_equal(body[:r], win[:r]) and np.all(body[r:d - r] == 1.0) and np.array_equal(body[d - r:], win[r:])):
-            return 'envelope is not (first half of window, ones, second half of window)'
-        if w in ('cosine-squared', 'cos2class', 'hann', 'hamming', 'bartlett') and (body.min(initial=0) < 0 or body.max(initial=0) > 1):
-            return 'envelope leaves [0, 1]'
+        return _shape(a, start, d, r, cfg['window'], cfg.get('transform'))
     return None
 
 
 def distribution(cases, results):
     d = {}
     for c in cases:
-        k = c['cfg']['t'] + (':' + c['cfg']['window'] if c['cfg']['t'] == 'env' else '')
+        if c.get('k') == 'envfn':
+            k = 'envelope():' + c['call']
+        else:
+            k = c['cfg']['t'] + (':' + c['cfg']['window'] if c['cfg']['t'] == 'env' else '')
         d[k] = d.get(k, 0) + 1
     return d
